@@ -9,7 +9,7 @@ from hypothesis import strategies as st
 import vadversary
 import vagent
 import vworld
-from puresnmp.exc import FaultySNMPImplementation, SnmpError
+from puresnmp.exc import ErrorResponse, FaultySNMPImplementation, SnmpError
 from vrunner import Result, Unit, enumeration_unit, hypothesis_unit, shard_seed
 
 ID = "C03"
@@ -20,15 +20,16 @@ TECHNIQUE = ("fault enumeration + property-based testing: the agent is an arbitr
              "simulation for repetition-independent functions; exhaustive over all functions on 4-OID universes in thorough")
 RULE = ("case = universe (1..3 roots, 2..5 OIDs inside each, OIDs before/between/after) x total function f "
         "(honest successor with 0..3 drawn defects, or fully random; repetition-dependent in half of the bulk "
-        "cases) x operation {walk, multiwalk, bulkwalk, table, bulktable} x errors {strict, warn} x bulk 0..8 x requests answered with an empty binding list; "
+        "cases) x operation {walk, multiwalk, bulkwalk, table, bulktable} x errors {strict, warn} x bulk 0..8 x requests answered with an empty binding list x requests answered with an error-status (2, 5, 13) and an error-index inside / outside the request; "
         "non-trivial = f has a non-advancing step reachable from a root; distinct = SHA-1 of canonical JSON case")
 ASSUMPTIONS = [
     "bound (3) #requests <= #distinct OIDs revealed + #roots + 1 is deliberately loose",
     "for repetition-dependent f only termination, no-re-request, the request bound and the outcome class are asserted (the trajectory then depends on chunking the client is free to choose)",
     "a non-advancing binding later in the same GETBULK response, after the column has left its root, may or may not be reported",
+    "a response with a non-zero error-status must end the operation: normally (status 2 on a continuation request, documented) or with the ErrorResponse subclass; it must never be re-requested",
     "a response without any binding (max-repetitions 0, or scripted) must still end the operation: normally, or with SnmpError for the GETNEXT-based operations (binding-count mismatch)",
 ]
-REQUIRED_CLASSES = {"nonadvancing_reachable": 0.25, "bulk=0": 0.02, "empty_response_scripted": 0.15, "op=bulkwalk": 0.10, "op=walk": 0.10, "errors=warn": 0.10}
+REQUIRED_CLASSES = {"nonadvancing_reachable": 0.25, "bulk=0": 0.02, "empty_response_scripted": 0.15, "error_response_scripted": 0.15, "op=bulkwalk": 0.10, "op=walk": 0.10, "errors=warn": 0.10}
 
 P = (1, 3, 6, 1, 2, 1, 7)
 
@@ -130,7 +131,8 @@ def build(case):
     cap = 3 * len(U) + 10
     agent = vadversary.FunctionAgent(roots, U, case["f"], cap,
                                      stop_all_eom=case.get("stop_all_eom", True),
-                                     empty_at=case.get("empty_at", ()))
+                                     empty_at=case.get("empty_at", ()),
+                                     error_at={int(k): tuple(v) for k, v in case.get("error_at", {}).items()})
     client = vworld.Client("192.0.2.1", vworld.V2C("public"), sender=agent)
     return roots, U, agent, client
 
@@ -176,6 +178,8 @@ def run_case(case) -> Result:
         classes.append("bulk=0")
     if case.get("empty_at"):
         classes.append("empty_response_scripted")
+    if case.get("error_at"):
+        classes.append("error_response_scripted")
     outcome = "ok"
     exc_text = ""
     try:
@@ -190,7 +194,10 @@ def run_case(case) -> Result:
     except vagent.AgentInternalError as exc:
         return Result("client sent something the agent cannot parse: %s" % exc, nonadv, classes)
     except Exception as exc:  # noqa
-        if agent.empty_sent and isinstance(exc, SnmpError) and op in ("walk", "multiwalk", "table"):
+        if agent.errors_sent and isinstance(exc, ErrorResponse):
+            # the agent answered with a non-zero error-status: surfacing it as the documented exception is fine (C08)
+            outcome = "error_response"
+        elif agent.empty_sent and isinstance(exc, SnmpError) and op in ("walk", "multiwalk", "table"):
             # a GETNEXT response without bindings is a count mismatch (C04): refusing it is fine
             outcome = "refused_empty"
         else:
@@ -219,7 +226,7 @@ def run_case(case) -> Result:
         return Result("%s raised FaultySNMPImplementation although every reachable answer advances: %s" % (
             op, exc_text), nonadv, classes)
     # (5) ideal walker, single root, repetition-independent f
-    if reps == 1 and len(used_roots) == 1 and not agent.empty_sent and not (bulk == 0 and op in ("bulkwalk", "bulktable")):
+    if reps == 1 and len(used_roots) == 1 and not agent.empty_sent and not agent.errors_sent and not (bulk == 0 and op in ("bulkwalk", "bulktable")):
         root = used_roots[0]
         kind, expect = ideal_walk(probe, root, len(U) + 2)
         is_bulk = op in ("bulkwalk", "bulktable")
@@ -294,7 +301,9 @@ def cases(draw):
     return dict(nroots=nroots, inside=inside, variant=variant, op=op,
                 errors=draw(st.sampled_from(["strict", "strict", "warn"])),
                 bulk=bulk, f=tab, stop_all_eom=draw(st.booleans()),
-                empty_at=draw(st.sampled_from([[], [], [], [], [], [0], [1], [2], [1, 2], [3]])))
+                empty_at=draw(st.sampled_from([[], [], [], [], [], [0], [1], [2], [1, 2], [3]])),
+                error_at=draw(st.sampled_from([{}, {}, {}, {}, {}, {"1": [2, 0]}, {"1": [2, 7]}, {"2": [2, 1]}, {"0": [2, 1]}, {"1": [5, 1]},
+                                               {"2": [2, 0]}, {"1": [2, 2]}, {"3": [13, 0]}])))
 
 
 def exhaustive(shard, nshards):
